@@ -13,7 +13,9 @@ RULE = ("(1) /proc/stat records printed by the spec's kernel printer (read throu
         "plus a malformed byte stream. (2) scripts of 2-7 calls of cpu_times/cpu_percent/cpu_times_percent (percpu or not; interval None, 0, >0 "
         "with the kernel moving during the sleep, <0) issued by 1-3 real threads in a scripted order, every script after a real re-import of psutil "
         "(40% by the script's main thread over an earlier snapshot = import-time priming; the rest by a parked foreign thread, so that no script thread has a sample), over successive snapshots whose "
-        "per-field deltas are drawn from {0, 1 tick, <1 s, >=1 s, backwards, huge}; (2b) object-lifetime histories with real threads: thread A samples and exits while its "
+        "per-field deltas are drawn from {0, 1 tick, <1 s, >=1 s, backwards, huge}; (2a) scripts in which blocking calls have calls of the same thread nested in their sleep "
+        "(made from the patched time.sleep, or from a real SIGALRM handler interrupting a real sleep of the main thread), the sleep optionally left by an "
+        "exception, /proc/stat rewritten before and after every nested call; (2b) object-lifetime histories with real threads: thread A samples and exits while its "
         "threading.Thread object is kept, dropped before the successor starts, dropped (+gc.collect()) between two calls of the successor, or never; thread B "
         "starts after A (and is handed A's ident) or before A exits; optional third thread and main-thread calls; B's first samples in other series / by "
         "blocking calls or in A's own series (where the ident-keyed code before d2712e2 inherited A's sample); (3) scripts of Process.cpu_percent calls on two "
@@ -312,6 +314,57 @@ def gen_life(rng, inherit=None):
             "imp": {"th": imp_th, "snap": 0}, "alive0": alive0, "idents": idents}
 
 
+def gen_nest(rng, flavour="p"):
+    """scripts in which blocking calls have calls of the SAME thread nested in their sleep (a signal handler, a gc callback ...
+    calling psutil again), optionally leaving the sleep by an exception; flavour p: cpu_percent only (any deltas), safe: both
+    functions with >= 1 s between snapshots."""
+    clk = rng.choice(CLKS)
+    nf = rng.choice([7, 8, 9, 10, 10])
+    ids = _ids(rng, rng.choice([1, 1, 2, 3]))
+    mode = "any" if flavour == "p" else "safe"
+    back = rng.random() < 0.4
+    snaps = [{"total": [rng.choice([0, 5, rng.randint(0, 10 ** 5)]) for _ in range(nf)], "cpus": [[rng.randint(0, 10 ** 5) for _ in range(nf)] for _ in ids]}]
+    anchor = rng.choice([0, 2, 3])
+    nthreads = rng.choice([1, 1, 2])
+
+    def snap(m=None):
+        snaps.append(_evolve(rng, snaps[-1], clk, 1, m or (mode if rng.random() < 0.9 else "same"), nf, anchor, back))
+        return len(snaps) - 1
+
+    def ev(tid, blocking=None, allow_neg=True):
+        fn = "p" if flavour == "p" else rng.choice(["p", "tp"])
+        iv = "pos" if blocking else rng.choice(["none", "none", "zero"] + (["neg"] if allow_neg else [])) if blocking is False else \
+            rng.choice(["none", "zero", "pos", "pos"])
+        if rng.random() < 0.08 and not blocking:
+            fn, iv = "t", "none"
+        return {"tid": tid, "fn": fn, "percpu": rng.random() < 0.45, "iv": iv, "zero": rng.choice([0, 0.0])}
+
+    events = []
+    n_nested = 0
+    for _ in range(rng.randint(2, 5)):
+        tid = rng.randrange(nthreads)
+        e = ev(tid, blocking=True if rng.random() < 0.6 else None)
+        e["k1"] = snap()
+        e["k2"] = e["k1"]
+        if e["iv"] == "pos" and e["fn"] != "t":
+            nested = []
+            for _ in range(rng.choice([0, 1, 1, 2, 3])):
+                n = ev(tid, blocking=True if rng.random() < 0.2 else False)
+                n["k1"] = snap()
+                n["k2"] = snap(mode) if n["iv"] == "pos" and n["fn"] != "t" else n["k1"]
+                nested.append(n)
+            e["nested"] = nested
+            n_nested += len(nested)
+            e["raise"] = rng.random() < 0.2
+            e["trigger"] = "sigalrm" if tid == 0 and rng.random() < 0.25 else "sleep"
+            e["k2"] = snap(mode)
+        events.append(e)
+    imp = 0 if rng.random() < 0.4 else None
+    cls = "nest-%s%s%s%s%s" % (flavour, "-nested" if n_nested else "", "-raise" if any(e.get("raise") for e in events) else "",
+                               "-sigalrm" if any(e.get("trigger") == "sigalrm" for e in events) else "", "-imp" if imp is not None else "")
+    return {"kind": "nest", "cls": cls, "clk": clk, "nf": nf, "ids": ids, "gran": 1, "snaps": snaps, "events": events, "imp": imp}
+
+
 def gen_script_raw(rng):
     clk = 100
     a = pstat([10, 0, 5, 100, 1, 0, 0, 0, 0, 0], [[0, [10, 0, 5, 100, 1, 0, 0, 0, 0, 0]], [1, [1, 2, 3, 4, 5, 6, 7, 8, 9, 10]]], [["ctxt", [4]]])
@@ -451,11 +504,13 @@ def gen_cases(rng, tier):
     cases = []
     if tier != "search":
         cases += _exhaustive_shapes() if tier == "thorough" else _exhaustive_shapes()[::7]
-    cases += [gen_times(rng) for _ in range(80 * n)]
-    cases += [gen_times_raw(rng) for _ in range(60 * n)]
-    for flavour, k in (("p", 90), ("tp-safe", 90), ("mixed", 70), ("mixed-any", 30), ("tp-sub", 30)):
+    cases += [gen_times(rng) for _ in range(60 * n)]
+    cases += [gen_times_raw(rng) for _ in range(50 * n)]
+    for flavour, k in (("p", 55), ("tp-safe", 55), ("mixed", 45), ("mixed-any", 20), ("tp-sub", 20)):
         cases += [gen_script(rng, flavour, big) for _ in range(k * n)]
     cases += [gen_script_raw(rng) for _ in range(40 * n)]
+    cases += [gen_nest(rng, "p") for _ in range(30 * n)]
+    cases += [gen_nest(rng, "safe") for _ in range(20 * n)]
     cases += [gen_life(rng, inherit=False) for _ in range(30 * n)]
     cases += [gen_life(rng, inherit=True) for _ in range(10 * n)]
     cases += [gen_life(rng) for _ in range(10 * n)]
@@ -496,6 +551,12 @@ def coq_term(case):
         evs = ["(mk_ev %d %s %s %s s%d s%d)" % (e["tid"], FN[e["fn"]], G.bo(e["percpu"]), IV[e["iv"]], e["k1"], e["k2"]) for e in case["events"]]
         imp = "(Some (%d, s%d))" % _imp_of(case)
         return "%srun_script %s %s %s %s" % (lets, clk, G.nat(case["nf"]), imp, G.lst(evs))
+    if k == "nest":
+        lets = "".join("let s%d := %s in " % (i, _stat(sn["total"], list(zip(case["ids"], sn["cpus"])), SCRIPT_TAIL))
+                       for i, sn in enumerate(case["snaps"]))
+        kev = lambda e: "(mk_ev %d %s %s %s s%d s%d)" % (e["tid"], FN[e["fn"]], G.bo(e["percpu"]), IV[e["iv"]], e["k1"], e["k2"])  # noqa: E731
+        bevs = ["(mk_bev %s %s %s)" % (kev(e), G.lst([kev(n) for n in e.get("nested", [])]), G.bo(e.get("raise", False))) for e in case["events"]]
+        return "%srun_bscript %s %s (Some (%d, s%d)) %s" % ((lets, clk, G.nat(case["nf"])) + _imp_of(case) + (G.lst(bevs),))
     if k == "life":
         lets = "".join("let s%d := %s in " % (i, _stat(sn["total"], list(zip(case["ids"], sn["cpus"])), SCRIPT_TAIL))
                        for i, sn in enumerate(case["snaps"]))
@@ -565,6 +626,10 @@ def coq_struct(case, raw):
             # hypotheses of C07_script_all_threads hold, so model = spec is a theorem (both are Qred-normal)
             raise RuntimeError("model and spec differ on a script satisfying script_ok: %r" % (case,))
         return {"printed": raw[0], "model": raw[1], "spec": raw[2], "totals": raw[3], "imp_printed": raw[4], "hyp_ok": raw[5]}
+    if k == "nest":
+        if raw[5] is True and raw[2] is not None and raw[1] != raw[2]:
+            raise RuntimeError("model and spec differ on a script satisfying bscript_ok (C07_script_with_nested_calls): %r" % (case,))
+        return {"printed": raw[0], "model": raw[1], "spec": raw[2], "totals": raw[3], "imp_printed": raw[4], "hyp_ok": raw[5]}
     if k == "life":
         if raw[5] is not True:
             raise RuntimeError("generated lifetime history breaks the OS rules (life_wf): %r" % (case,))
@@ -606,8 +671,8 @@ def _within(a, b, tol):
 
 def finding_key(case, coq):
     k = case["kind"]
-    if k in ("script", "life") and coq.get("spec") is not None:
-        for e, tots in zip(case["events"] if k == "script" else _life_calls(case), coq["totals"]):
+    if k in ("script", "life", "nest") and coq.get("spec") is not None:
+        for e, tots in zip(case["events"] if k == "script" else _flat_events(case) if k == "nest" else _life_calls(case), coq["totals"]):
             if e["fn"] == "tp" and any(0 < t < case["clk"] for t in tots):
                 return KEY_SUBSEC
     return None
@@ -704,6 +769,10 @@ IMPORTER_ELSEWHERE = 99     # thread id (of the model) of a parked helper thread
 
 class _ImportFailed(Exception):
     pass
+
+
+class _Interrupt(RuntimeError):
+    """raised by the code that runs during a sleep (signal handler ...) to leave the sleep"""
 
 
 class _Fresh:
@@ -835,7 +904,7 @@ def impl_run(case, coq, env):
                 # (field names are checked in _row; the number of fields by the comparison with the model/spec row)
                 out.append(_snap_outcome(r, cands, rel) if isinstance(r, dict) and r.get("t") == "Val" else r)
             return out
-        if k in ("script", "script_raw", "life"):
+        if k in ("script", "script_raw", "life", "nest"):
             return _run_script(case, coq, env, time)
         if k == "proc":
             return _run_proc(case, coq, env, time)
@@ -848,7 +917,7 @@ def impl_run(case, coq, env):
 
 
 def _tolerance(case):
-    if case["kind"] in ("script", "life"):
+    if case["kind"] in ("script", "life", "nest"):
         m = max(max(s["total"] + sum(s["cpus"], [0])) for s in case["snaps"])   # snaps[0] = import-time state included
         noise = Fraction(200 * m, 2 ** 46 * case["gran"])
     else:
@@ -866,6 +935,16 @@ def _imp_of(case):
     return IMPORTER_ELSEWHERE, case["events"][0]["k1"]
 
 
+def _flat_events(case):
+    """the calls of a nest script in the order they return: nested ones, then the blocking one"""
+    out = []
+    for e in case["events"]:
+        if e["iv"] == "pos" and e["fn"] != "t":
+            out.extend(e.get("nested", []))
+        out.append(e)
+    return out
+
+
 def _life_calls(case):
     return [o for o in case["ops"] if o["op"] == "call"]
 
@@ -881,7 +960,6 @@ def _run_script(case, coq, env, time):
     rel = lambda c: Fraction(1, 2 ** 48) * max(1, abs(c))  # noqa: E731
     threads = {}          # logical thread -> _Thread (holds the threading.Thread object)
     observed = {0: threading.get_ident()}
-    pending = {"k2": None, "slept": 0}
     real_sleep = time.sleep
     if k == "life":
         imp_tid = case["imp"]["th"]
@@ -901,13 +979,101 @@ def _run_script(case, coq, env, time):
         raise
     psutil, root = fr.psutil, fr.root
 
-    def fake_sleep(x):
-        pending["slept"] += 1
-        if pending["k2"] is not None:
-            _write_stat(root, pending["k2"])
-    time.sleep = fake_sleep
+    frames = []           # one frame per call in progress (a nested call runs inside the sleep of the frame below it)
     out = []
-    idx = -1
+
+    def contents(e, i):
+        if k == "script_raw":
+            return bytes.fromhex(e["k1"]), bytes.fromhex(e["k2"])
+        return unB(coq["printed"][i][0]), (unB(coq["printed"][i][1]) if e["iv"] == "pos" else None)
+
+    def in_sleep(fr_):
+        """what happens while the call of frame fr_ sleeps: the same thread calls again, then the kernel moves on"""
+        for n, ni in fr_["nested"]:
+            out.append(do_call(n, ni, [], False))
+        if fr_["k2"] is not None:
+            _write_stat(root, fr_["k2"])
+        if fr_["raise"]:
+            raise _Interrupt("the sleep is interrupted")
+
+    def fake_sleep(x):
+        fr_ = frames[-1]
+        fr_["slept"] += 1
+        if fr_["slept"] > 1:
+            return
+        if fr_["trigger"] == "sigalrm":
+            # a real signal handler running in the middle of a real sleep of the main thread
+            import signal
+            left = signal.alarm(0)
+            state = {"done": False}
+
+            def handler(signum, frame):
+                if not state["done"]:
+                    state["done"] = True
+                    in_sleep(fr_)
+            old = signal.signal(signal.SIGALRM, handler)
+            try:
+                signal.setitimer(signal.ITIMER_REAL, 0.002)
+                real_sleep(0.05)
+                if not state["done"]:
+                    state["done"] = True
+                    in_sleep(fr_)
+            finally:
+                signal.setitimer(signal.ITIMER_REAL, 0)
+                signal.signal(signal.SIGALRM, old)
+                if left:
+                    signal.alarm(left)
+        else:
+            in_sleep(fr_)
+    time.sleep = fake_sleep
+
+    def conv_for(fn, percpu):
+        def conv(r):
+            if fn == "t":
+                if percpu:
+                    if not isinstance(r, list):
+                        raise _BadShape("cpu_times(percpu=True) -> %r" % type(r))
+                    return ("TimesP", [_row(nt, len(nt._fields)) for nt in r])
+                return ("Times", _row(r, len(r._fields)))
+            if fn == "p":
+                if percpu:
+                    if not isinstance(r, list):
+                        raise _BadShape("cpu_percent(percpu=True) -> %r" % type(r))
+                    return ("Nums", [_frac(x) for x in r])
+                return ("Num", _frac(r))
+            if percpu:
+                if not isinstance(r, list):
+                    raise _BadShape("cpu_times_percent(percpu=True) -> %r" % type(r))
+                return ("Rows", [_row(nt, len(nt._fields)) for nt in r])
+            return ("Row", _row(r, len(r._fields)))
+        return conv
+
+    def do_call(e, i, nested, raise_, trigger="sleep"):
+        """one call of the public API in the CURRENT thread; nested = [(event, flat index)] to be made during its sleep"""
+        k1, k2 = contents(e, i)
+        _write_stat(root, k1)
+        fr_ = {"k2": k2 if e["iv"] == "pos" else None, "slept": 0, "nested": nested, "raise": raise_, "trigger": trigger}
+        iv = {"none": None, "zero": e.get("zero", 0), "pos": 0.25, "neg": -1}[e["iv"]]
+        f = {"p": psutil.cpu_percent, "tp": psutil.cpu_times_percent, "t": psutil.cpu_times}[e["fn"]]
+        percpu = e["percpu"]
+        frames.append(fr_)
+        try:
+            if e["fn"] == "t":
+                r = _shape_outcome(lambda: f(percpu=percpu), conv_for(e["fn"], percpu))
+            else:
+                r = _shape_outcome(lambda: f(interval=iv, percpu=percpu), conv_for(e["fn"], percpu))
+        finally:
+            frames.pop()
+        is_val = isinstance(r, dict) and r.get("t") == "Val"
+        want_sleep = 1 if (e["iv"] == "pos" and e["fn"] != "t") else 0
+        if (fr_["slept"] != want_sleep) if is_val else (fr_["slept"] > want_sleep):
+            return T("SleepCalls", fr_["slept"])     # time.sleep(interval) exactly once in the blocking form, never otherwise
+        if is_val:
+            cands = [coq["model"][i]] + ([coq["spec"][i]] if coq.get("spec") else [])
+            r = _snap_outcome(r, cands, rel if e["fn"] == "t" else tol)
+        return r
+
+    idx = 0
     try:
         for e in ops:
             if e["op"] == "start":
@@ -922,55 +1088,18 @@ def _run_script(case, coq, env, time):
                 del threads[e["th"]]              # last reference to the (finished) thread's Thread object
                 gc.collect()
                 continue
-            idx += 1
-            if k == "script_raw":
-                k1, k2 = bytes.fromhex(e["k1"]), bytes.fromhex(e["k2"])
-            else:
-                k1 = unB(coq["printed"][idx][0])
-                k2 = unB(coq["printed"][idx][1]) if e["iv"] == "pos" else None
-            _write_stat(root, k1)
-            pending["k2"], pending["slept"] = (k2 if e["iv"] == "pos" else None), 0
-            iv = {"none": None, "zero": e.get("zero", 0), "pos": 0.25, "neg": -1}[e["iv"]]
-            f = {"p": psutil.cpu_percent, "tp": psutil.cpu_times_percent, "t": psutil.cpu_times}[e["fn"]]
-            percpu = e["percpu"]
-
-            def conv(r, fn=e["fn"], percpu=percpu):
-                if fn == "t":
-                    if percpu:
-                        if not isinstance(r, list):
-                            raise _BadShape("cpu_times(percpu=True) -> %r" % type(r))
-                        return ("TimesP", [_row(nt, len(nt._fields)) for nt in r])
-                    return ("Times", _row(r, len(r._fields)))
-                if fn == "p":
-                    if percpu:
-                        if not isinstance(r, list):
-                            raise _BadShape("cpu_percent(percpu=True) -> %r" % type(r))
-                        return ("Nums", [_frac(x) for x in r])
-                    return ("Num", _frac(r))
-                if percpu:
-                    if not isinstance(r, list):
-                        raise _BadShape("cpu_times_percent(percpu=True) -> %r" % type(r))
-                    return ("Rows", [_row(nt, len(nt._fields)) for nt in r])
-                return ("Row", _row(r, len(r._fields)))
-
-            def call(f=f, iv=iv, percpu=percpu, conv=conv, fn=e["fn"]):
-                if fn == "t":
-                    return _shape_outcome(lambda: f(percpu=percpu), conv)
-                return _shape_outcome(lambda: f(interval=iv, percpu=percpu), conv)
+            blocking = e["iv"] == "pos" and e["fn"] != "t"
+            nested = [(n, idx + j) for j, n in enumerate(e.get("nested", []))] if blocking else []
+            oi = idx + len(nested)
+            idx = oi + 1
+            job = (lambda e=e, oi=oi, nested=nested: do_call(e, oi, nested, bool(e.get("raise")) and blocking, e.get("trigger", "sleep")))
             if e["th"] == 0:
-                r = call()
+                r = job()
             else:
                 if e["th"] not in threads:
                     threads[e["th"]] = _Thread()
                     observed[e["th"]] = threads[e["th"]].call(threading.get_ident)
-                r = threads[e["th"]].call(call)
-            is_val = isinstance(r, dict) and r.get("t") == "Val"
-            want_sleep = 1 if (e["iv"] == "pos" and e["fn"] != "t") else 0
-            if (pending["slept"] != want_sleep) if is_val else (pending["slept"] > want_sleep):
-                r = T("SleepCalls", pending["slept"])     # time.sleep(interval) exactly once in the blocking form, never otherwise
-            elif is_val:
-                cands = [coq["model"][idx]] + ([coq["spec"][idx]] if coq.get("spec") else [])
-                r = _snap_outcome(r, cands, rel if e["fn"] == "t" else tol)
+                r = threads[e["th"]].call(job)
             out.append(r)
     finally:
         time.sleep = real_sleep
@@ -1148,12 +1277,14 @@ def _run_pblock(case, coq, env, time):
 
 
 MANIFEST = {
-    "text": "Theorems (Coq, 33, all closed under the global context): (parse) for every /proc/stat the kernel can print (any number of CPUs, >= 7 "
+    "text": "Theorems (Coq, 36, all closed under the global context): (parse) for every /proc/stat the kernel can print (any number of CPUs, >= 7 "
             "decimal counters per line) the model of cpu_times()/cpu_times(percpu=True) returns every named counter / CLOCK_TICKS per CPU in kernel "
             "order; (arithmetic) cpu_percent between two samples = 100*busy/total over clipped deltas (busy = user+nice+system+irq+softirq+steal, "
             "guest not double counted, idle/iowait not busy), in [0,100], a counter that went backwards contributes zero; cpu_times_percent values "
             "are in [0,100] always and the non-guest shares add up to exactly 100 once one CPU-second elapsed (refuted with a witness below one "
-            "second: known finding); (lifetimes) thread exits, ident hand-overs and threading.Thread "
+            "second: known finding); (re-entrancy) the answer of a blocking call is independent of any calls the "
+            "same thread makes during its sleep (C07_blocking_answer_independent_of_nested_calls), a sleep left by an exception stores nothing, and the script "
+            "theorem holds with nested calls (C07_script_with_nested_calls); (lifetimes) thread exits, ident hand-overs and threading.Thread "
             "object collections leave the baseline of a running thread untouched (C07_own_baseline_kept) and the script theorem holds thread by thread over "
             "lifetime histories (C07_script_with_thread_lifetimes), at full strength since /repo d2712e2 (thread-local storage); the ident-keyed dicts "
             "of the code before are kept as a legacy variant with its invariant C07_own_baseline_kept and the refutation C07_ident_reuse_refuted; (script theorem C07_script_all_threads) starting from the state the import leaves (the importing thread primed "
